@@ -6,8 +6,8 @@ Two std functions are involved:
 * `f64`'s `{:?}` (shortest round-trip digits) is a PARAMETER (`fmtF64`), instantiated by the driver
   with an exact implementation (Driver/C03.lean) and compared with the engine by the harness;
 * `str`'s `{:?}` (used for strings inside arrays and maps) is modelled for the characters the
-  harness generates: `"` `\` newline, tab, CR, NUL are backslash escapes, other ASCII control
-  characters are `\u{..}` escapes, everything else is printed as is (Rust additionally escapes
+  harness generates: `"` `\` newline, tab, CR, NUL are backslash escapes, other ASCII and C1
+  control characters (below U+00A0) are `\u{..}` escapes, everything else is printed as is (Rust additionally escapes
   non-ASCII characters that are not printable or are grapheme extenders; the harness does not
   generate those);
 * `String::from_utf8_lossy` (printing bytes) is modelled in full (`lossyDecode`).
@@ -31,7 +31,7 @@ def debugStr (s : List Char) : List Char :=
     else if c == '\t' then ['\\', 't']
     else if c == '\r' then ['\\', 'r']
     else if c.toNat == 0 then ['\\', '0']
-    else if c.toNat < 0x20 || c.toNat == 0x7f then ['\\', 'u', '{'] ++ hexLower c.toNat ++ ['}']
+    else if c.toNat < 0x20 || (0x7f ≤ c.toNat && c.toNat ≤ 0x9f) then ['\\', 'u', '{'] ++ hexLower c.toNat ++ ['}']
     else [c]
   ['"'] ++ s.flatMap esc ++ ['"']
 
